@@ -48,12 +48,23 @@ func (l *Ledger) Replay(frames []Frame, actions []Action, handshakeAcks int) (st
 		seq   int
 	}
 	var pendingNeg []pend
+	var pendingFrame []pend // MAX_FRAME_SIZE decreases (delta holds the new value), in sequence order
+	frameVals := map[int]int64{} // every MAX_FRAME_SIZE the peer has sent, by SETTINGS ordinal
+	for _, a := range actions {
+		if a.Kind == "settings-maxframe" {
+			frameVals[a.SetSeq] = a.Val
+		}
+	}
 	ai := 0
 	acks := 0
+	sentSeq := 0
 	applyUpTo := func(i int) {
 		for ai < len(actions) && actions[ai].At <= i {
 			a := actions[ai]
 			ai++
+			if a.SetSeq > sentSeq {
+				sentSeq = a.SetSeq
+			}
 			switch a.Kind {
 			case "wu":
 				if a.Stream == 0 {
@@ -72,8 +83,12 @@ func (l *Ledger) Replay(frames []Frame, actions []Action, handshakeAcks int) (st
 					pendingNeg = append(pendingNeg, pend{delta, a.SetSeq})
 				}
 			case "settings-maxframe":
-				if a.Val > maxFrame {
+				if a.Val >= maxFrame {
 					maxFrame = a.Val // usable from the moment it was sent
+					// an earlier, not yet acknowledged decrease is overtaken: once the sender acknowledges it, it has
+					// also seen this one or will apply it next; keeping the larger bound stays on the permissive side
+				} else {
+					pendingFrame = append(pendingFrame, pend{a.Val, a.SetSeq}) // binds when the sender acknowledges it
 				}
 			}
 		}
@@ -96,6 +111,25 @@ func (l *Ledger) Replay(frames []Frame, actions []Action, handshakeAcks int) (st
 				}
 			}
 			pendingNeg = rest
+			// MAX_FRAME_SIZE: after acknowledging SETTINGS number seq the sender may use the largest value among the
+			// one in force at that acknowledgement and every later one already sent (it may have applied those too)
+			restF := pendingFrame[:0]
+			for _, p := range pendingFrame {
+				if p.seq <= seq {
+					bound := p.delta
+					for q, v := range frameVals {
+						if q > p.seq && q <= sentSeq && v > bound {
+							bound = v
+						}
+					}
+					if bound < maxFrame {
+						maxFrame = bound
+					}
+				} else {
+					restF = append(restF, p)
+				}
+			}
+			pendingFrame = restF
 		case f.Type == wire.TData:
 			n := int64(f.Len)
 			w, known := st.Streams[f.Stream]
